@@ -196,7 +196,8 @@ def tlc_jobs(tier):
 
 
 def run_tlc_job(ck, tier, j):
-    tag = j["label"].replace("/", "_")
+    # every file of a run carries the process id: two concurrent runs of this check must not share files
+    tag = j["label"].replace("/", "_") + f".{os.getpid()}"
     cfg = os.path.join(vlib.SPEC, f"{j['module']}_{PID}_{tier}_{tag}.gen.cfg")
     if j["sub"] == "demux":
         write_demux_cfg(cfg, j["consts"], emit=True)
@@ -221,7 +222,7 @@ def run_tlc_job(ck, tier, j):
 def consume(ck, tier, j, nontrivial):
     """Replay one generated file on the implementation, fold the result into the check, delete the file."""
     sub, label, res, path = j["sub"], j["label"], j["res"], j["out"]
-    tag = label.replace("/", "_")
+    tag = label.replace("/", "_") + f".{os.getpid()}"
     sim = j["consts"].get("sim")
     try:
         if res.get("timeout") or res["errors"] or res["rc"] != 0:
@@ -323,9 +324,9 @@ def replay(path):
         rec = json.load(f)
     case = rec["record"]["case"]
     sub = rec["signature"].get("sub", "demux")
-    ep = os.path.join(ck.dir, "replay_one.ndjson")
+    ep = os.path.join(ck.dir, f"replay_one.{os.getpid()}.ndjson")
     vlib.write_ndjson(ep, [case])
-    rows = run_sharded(sub, ep, os.path.join(ck.dir, "replay_one_out"), 1, timeout=300)
+    rows = run_sharded(sub, ep, os.path.join(ck.dir, f"replay_one_out.{os.getpid()}"), 1, timeout=300)
     os.remove(ep)
     summ = absorb(ck, sub, rows)
     ck.cov.update(states=1, transitions=1, traces_validated_against_impl=summ.get("edges", summ.get("cases", 0)),
@@ -341,7 +342,7 @@ def selftest():
     c = dict(DEMUX_CFG["quick"][0][1])
     for dev, props in (('{"ProvisionalOnAmbiguousPt"}', ("ChainRespected", "AmbiguousPtDropped")),
                        ('{"ClearKeepsMid"}', ("OnlyRegistered",))):
-        cfg = os.path.join(vlib.SPEC, f"MC_Demux_{PID}_selftest.gen.cfg")
+        cfg = os.path.join(vlib.SPEC, f"MC_Demux_{PID}_selftest.{os.getpid()}.gen.cfg")
         write_demux_cfg(cfg, c, emit=False, deviations=dev)
         res = vlib.tlc("MC_Demux", os.path.basename(cfg), timeout=600, workers=4, tag="MC_Demux_C19_selftest")
         os.remove(cfg)
@@ -356,9 +357,9 @@ def selftest():
             "exp": {"delivered": {"allowed": [[]], "rule": "ChainRespected"}},
             "ext": {"delivered": [], "bound": [True, False]},
             "cls": {"by": "ssrc", "closedHit": False, "holders": 0, "provs": 0, "identified": True, "unreg": False}}
-    ep = os.path.join(d, "selftest_edge.ndjson")
+    ep = os.path.join(d, f"selftest_edge.{os.getpid()}.ndjson")
     vlib.write_ndjson(ep, [edge])
-    rows = run_sharded("demux", ep, os.path.join(d, "selftest_edge_out"), 1, timeout=120)
+    rows = run_sharded("demux", ep, os.path.join(d, f"selftest_edge_out.{os.getpid()}"), 1, timeout=120)
     hit = any(r.get("type") == "divergence" and r.get("rule") == "ChainRespected" for r in rows)
     print("selftest: corrupted demux expectation is reported:", hit)
     ok = ok and hit
@@ -371,7 +372,7 @@ def selftest():
                                                                  "first": False, "cont": "cont", "mid": 0,
                                                                  "tsRule": "TsPreserve"}}]}
     vlib.write_ndjson(ep, [case])
-    rows = run_sharded("bridge", ep, os.path.join(d, "selftest_case_out"), 1, timeout=120)
+    rows = run_sharded("bridge", ep, os.path.join(d, f"selftest_case_out.{os.getpid()}"), 1, timeout=120)
     os.remove(ep)
     hit = any(r.get("type") == "divergence" and r.get("rule") == "SeqConsecutive" for r in rows)
     print("selftest: corrupted bridge expectation is reported:", hit)
